@@ -37,6 +37,18 @@ func (c InstCase) context() (pre, post, directives string) {
 		return bitsDirective(48-m) + "\t" + c.St.Render() + "\n" + bitsDirective(m), "", bitsDirective(48-m) + bitsDirective(m)
 	case "prebits":
 		return widenPrefix, "[BITS 32]\n\tMOV EAX,1\n", "[BITS 32]\n"
+	case "sibling":
+		// the same statement with another register of the same width in place of its first register operand
+		// comes first (anything remembered per mnemonic and memory operand must also know the register)
+		sib := sem.Stmt{Mn: c.St.Mn, Ops: append([]sem.Operand{}, c.St.Ops...)}
+		for i, o := range sib.Ops {
+			if o.Kind == sem.KReg {
+				regs := regsOf(sem.RegBits(o.Reg))
+				sib.Ops[i] = sem.R(regs[(sem.RegNum(o.Reg)+1+2*(i%2))%8])
+				break
+			}
+		}
+		return sem.Header(c.Mode) + "\t" + sib.Render() + "\n", "", sem.Header(c.Mode)
 	}
 	return sem.Header(c.Mode), "", sem.Header(c.Mode)
 }
@@ -172,7 +184,7 @@ func allInstForms() []form {
 
 var propC01 = &Prop[InstCase]{
 	ID:   "C01",
-	Rule: "one instruction statement (catalogue form x registers x boundary/uniform immediates) under BITS none/16/32, alone or in a context (behind an out-of-reach Jcc = second assembly round; as the twin of the same text under the other mode; before the first directive of a program that later switches to 32 bits); non-trivial = accepted without diagnostic and non-empty output; distinct by (mode setting, rendered statement)",
+	Rule: "one instruction statement (catalogue form x registers x boundary/uniform immediates) under BITS none/16/32, alone or in a context (behind an out-of-reach Jcc = second assembly round; as the twin of the same text under the other mode; before the first directive of a program that later switches to 32 bits); the quick tier also enumerates a reduced grid (every form x both modes x every boundary immediate / memory shape / absolute address, one register per register slot); non-trivial = accepted without diagnostic and non-empty output; distinct by (mode setting, rendered statement)",
 	Gen: func(t *rapid.T) InstCase {
 		fs := allInstForms()
 		// stratify: 1/8 of the cases are no-operand mnemonics
@@ -192,6 +204,40 @@ var propC01 = &Prop[InstCase]{
 	},
 	Check: checkC01,
 	Enum: func(tier string, yield func(InstCase)) bool {
+		if tier == "quick" {
+			// reduced grid: every form under both modes, the full domain of its last non-register slot (boundary
+			// immediates, memory shapes, absolute addresses), one register per register slot (rotating)
+			k := 0
+			for _, f := range allInstForms() {
+				for _, mode := range []int{16, 32} {
+					doms := make([][]sem.Operand, len(f.Slots))
+					wide := -1
+					for i, sl := range f.Slots {
+						doms[i] = slotDomain(sl, true)
+						if len(doms[i]) > 8 || sl == "moffs" {
+							wide = i
+						}
+					}
+					n := 1
+					if wide >= 0 {
+						n = len(doms[wide])
+					}
+					for j := 0; j < n; j++ {
+						ops := make([]sem.Operand, len(f.Slots))
+						for i := range f.Slots {
+							if i == wide {
+								ops[i] = doms[i][j]
+							} else {
+								ops[i] = doms[i][(k+i)%len(doms[i])]
+							}
+						}
+						k++
+						yield(InstCase{Mode: mode, St: sem.Stmt{Mn: f.Mn, Ops: ops}, Cls: f.Class})
+					}
+				}
+			}
+			return false
+		}
 		for _, f := range allInstForms() {
 			for _, mode := range []int{0, 16, 32} {
 				enumForm(f, func(s sem.Stmt) { yield(InstCase{Mode: mode, St: s, Cls: f.Class}) })
